@@ -272,8 +272,344 @@ def make(M, N):
     return contract
 
 
+# ===================================================================================== wiring (caller-side obligations)
+# The endpoint contract above cuts at SuperSpeedEndpointInterface: tx.ready, handshakes_in.*, handshakes_out.done and
+# ep_reset are free inputs, and its ensures speak about the endpoint's OWN tx stream / header fields / handshake
+# requests.  What the host sees is what the glue makes of them: SuperSpeedEndpointMultiplexer (N endpoints -> one
+# interface) and USB3ProtocolLayer (that interface -> link layer / transaction packet units).  The obligations below
+# are stated on the netlists of those real parents with every interface signal a free input, so each holds FOR ALL
+# VALUES of everything not named in it (in particular whatever the other endpoints' payload / parameter lines carry).
+
+def signals_of(obj, prefix=""):
+    """{name: Signal} for every Signal of an interface object: Records recursively (every field), plain attribute
+    containers through their public attributes."""
+    from amaranth.hdl import Record, Signal
+    out = {}
+    if isinstance(obj, Signal):
+        out[prefix.rstrip("_")] = obj
+    elif isinstance(obj, Record):
+        for f in obj.fields:
+            out.update(signals_of(obj.fields[f], prefix + f + "_"))
+    else:
+        for k, v in vars(obj).items():
+            if not k.startswith("_") and isinstance(v, (Signal, Record)):
+                out.update(signals_of(v, prefix + k + "_"))
+    return out
+
+
+def exactly(sel, i):
+    return z3.And(sel[i], *[z3.Not(s) for j, s in enumerate(sel) if j != i])
+
+
+TX_STREAM = ("valid", "payload", "first", "last")
+TX_HEADER = ("tx_zlp", "tx_length", "tx_endpoint_number", "tx_sequence_number", "tx_direction")
+HS_OUT_REQ = ("send_ack", "send_stall", "send_nrdy", "send_erdy")
+HS_OUT_PARAM = ("endpoint_number", "retry_required", "next_sequence")
+
+
+def make_mux_wiring(n):
+    def mux_wiring(c):
+        from luna.gateware.usb.usb3.protocol.endpoint import SuperSpeedEndpointMultiplexer, SuperSpeedEndpointInterface
+        d = SuperSpeedEndpointMultiplexer()
+        ifs = [SuperSpeedEndpointInterface() for _ in range(n)]
+        for x in ifs:
+            d.add_interface(x)
+        ports = signals_of(d.shared, "shared_")
+        for k, x in enumerate(ifs):
+            ports.update(signals_of(x, f"ep{k}_"))
+        ts = c.unit(d, ports)
+        of, sh = ts.of, d.shared
+        eq = lambda a, b: of(a) == of(b)
+
+        # ---- transmit side: tx stream AND the header parameters travel together
+        sel = [z3.Or(of(x.tx.valid) != 0, of(x.tx_zlp) == 1) for x in ifs]        # endpoint k is transmitting / asks for a ZLP
+        for k, x in enumerate(ifs):
+            c.lemma(f"ep{k}_tx_stream_reaches_shared_when_only_transmitter",
+                    z3.Implies(exactly(sel, k), z3.And(eq(sh.tx.valid, x.tx.valid), z3.Implies(of(x.tx.valid) != 0, z3.And(
+                        *[eq(getattr(sh.tx, f), getattr(x.tx, f)) for f in TX_STREAM])))),
+                    clause="answers an IN request with a data packet: the tx stream (valid/payload/first/last) the link layer sees is the "
+                           "transmitting endpoint's, whatever the other endpoints' lines carry")
+            c.lemma(f"ep{k}_tx_header_fields_reach_shared_when_only_transmitter",
+                    z3.Implies(exactly(sel, k), z3.And(*[eq(getattr(sh, f), getattr(x, f)) for f in TX_HEADER if f != "tx_length"],
+                                                       z3.Implies(of(x.tx.valid) != 0, eq(sh.tx_length, x.tx_length)))),
+                    clause="numbers packets with consecutive sequence numbers / ZLP transfer ends: tx_zlp, tx_length, tx_endpoint_number, "
+                           "tx_sequence_number and tx_direction seen by the link layer are the transmitting endpoint's - in data cycles "
+                           "and in the cycle of a ZLP strobe (tx.valid = 0) alike (tx_length: in data cycles; a ZLP has length 0)")
+            c.lemma(f"ep{k}_tx_ready_reaches_transmitter", z3.Implies(z3.And(exactly(sel, k), of(x.tx.valid) != 0), eq(x.tx.ready, sh.tx.ready)),
+                    clause="delivers the stream exactly once: the transmitting endpoint sees the link layer's tx.ready")
+        c.lemma("no_tx_without_a_transmitting_endpoint",
+                z3.Implies(z3.Not(z3.Or(*sel)), z3.And(of(sh.tx.valid) == 0, of(sh.tx_zlp) == 0)),
+                clause="a data packet / ZLP is only sent when an endpoint sends one")
+        c.lemma("tx_valid_or_zlp_reaches_shared_whenever_an_endpoint_transmits",
+                z3.Implies(z3.Or(*sel), z3.Or(of(sh.tx.valid) != 0, of(sh.tx_zlp) == 1)),
+                clause="answers an IN request with a data packet")
+
+        # ---- handshake generator interface (NRDY / ERDY / ACK / STALL requests)
+        act = [z3.Or(*[of(getattr(x.handshakes_out, f)) == 1 for f in HS_OUT_REQ]) for x in ifs]
+        for k, x in enumerate(ifs):
+            c.lemma(f"ep{k}_handshake_request_reaches_generator_when_only_requester",
+                    z3.Implies(exactly(act, k), z3.And(*[eq(getattr(sh.handshakes_out, f), getattr(x.handshakes_out, f))
+                                                        for f in HS_OUT_REQ + HS_OUT_PARAM])),
+                    clause="NRDY otherwise / notifies the host with ERDY: every request strobe (send_ack/stall/nrdy/erdy) and its parameters "
+                           "(endpoint_number, retry_required, next_sequence) reach the transaction packet generator")
+            c.lemma(f"ep{k}_sees_generator_ready_and_done_while_requesting",
+                    z3.Implies(exactly(act, k), z3.And(eq(x.handshakes_out.ready, sh.handshakes_out.ready),
+                                                       eq(x.handshakes_out.done, sh.handshakes_out.done))),
+                    clause="ERDY is requested until the generator reports done: the requesting endpoint sees the generator's ready/done")
+        c.lemma("no_handshake_request_without_a_requesting_endpoint",
+                z3.Implies(z3.Not(z3.Or(*act)), z3.And(*[of(getattr(sh.handshakes_out, f)) == 0 for f in HS_OUT_REQ])),
+                clause="transaction packets are only sent on an endpoint's request")
+
+        # ---- broadcast side: every endpoint sees the host's handshakes, the receive path and the device state unchanged
+        for k, x in enumerate(ifs):
+            c.lemma(f"ep{k}_sees_received_handshakes",
+                    z3.And(*[eq(getattr(x.handshakes_in, f), getattr(sh.handshakes_in, f)) for f in sh.handshakes_in.fields]),
+                    clause="for any host behaviour: every field of handshakes_in (ACK strobe, endpoint number, NumP, next sequence, retry, ...) "
+                           "reaches every endpoint")
+            c.lemma(f"ep{k}_sees_receive_path",
+                    z3.And(*[eq(getattr(x.rx, f), getattr(sh.rx, f)) for f in TX_STREAM],
+                           *[eq(getattr(x.rx_header, f), getattr(sh.rx_header, f)) for f in sh.rx_header.fields],
+                           eq(x.rx_complete, sh.rx_complete), eq(x.rx_invalid, sh.rx_invalid)),
+                    clause="(OUT direction) rx stream, rx_header (every field), rx_complete, rx_invalid are broadcast")
+            c.lemma(f"ep{k}_sees_device_state",
+                    z3.And(eq(x.active_address, sh.active_address), eq(x.active_config, sh.active_config),
+                           of(x.ep_reset) == z3.If(z3.Or(*[of(y.config_changed) == 1 for y in ifs]), bvc(1, 1), bvc(0, 1))),
+                    clause="sequence numbers restart on ep_reset: ep_reset is raised for every endpoint exactly when some endpoint "
+                           "reports a configuration change; active address / configuration are broadcast")
+        # ---- address / configuration changes (control endpoint -> device)
+        for strobe, value in (("address_changed", "new_address"), ("config_changed", "new_config")):
+            on = [of(getattr(x, strobe)) == 1 for x in ifs]
+            c.lemma(f"{strobe}_is_or_of_endpoints", (of(getattr(sh, strobe)) == 1) == z3.Or(*on))
+            for k, x in enumerate(ifs):
+                c.lemma(f"ep{k}_{value}_selected_when_only_source", z3.Implies(exactly(on, k), eq(getattr(sh, value), getattr(x, value))))
+        c.cosim_cycles = 16
+    return mux_wiring
+
+
+def same(ts, a, b):
+    """Signal a carries signal b: same declared width (a narrower declaration would truncate) and equal value."""
+    from hwv.extract import BindingError
+    try:
+        ta = ts.of(a)
+    except BindingError:
+        return z3.BoolVal(True)         # nothing in the design reads or drives `a`: no reader to mislead
+    try:
+        tb = ts.of(b)
+    except BindingError:
+        return z3.BoolVal(False)        # `a` exists but the intended source is not part of the design at all
+    return z3.BoolVal(False) if ta.size() != tb.size() else ta == tb
+
+
+def record_same(ts, a, b, fields=None):
+    """every field of Record a equals the same field of Record b"""
+    sa, sb = signals_of(a), signals_of(b)
+    assert set(sa) == set(sb), (set(sa) ^ set(sb))
+    return z3.And(*[same(ts, sa[f], sb[f]) for f in sa if fields is None or f in fields])
+
+
+def open_protocol_layer(c):
+    """The real USB3ProtocolLayer; the link layer object it is handed is the open sidecar record container of C47, and every
+    signal of both interfaces is a port (free input unless the layer drives it)."""
+    from luna.gateware.usb.usb3.protocol.layer import USB3ProtocolLayer
+    from .c47_timestamp import OpenLinkLayer
+    link = OpenLinkLayer()
+    d = USB3ProtocolLayer(link_layer=link)
+    ports = signals_of(link, "link_")
+    ports.update(signals_of(d.endpoint_interface, "ep_"))
+    ports.update({"current_address": d.current_address, "current_configuration": d.current_configuration, "bus_interval": d.bus_interval})
+    ts = c.unit(d, ports)
+    return d, link, ts
+
+
+def header_queue_consumer_sees(ts, consumer, producer):
+    """consumer.valid / consumer.header.* are the producer's (the ready path is stated separately)"""
+    return z3.And(same(ts, consumer.valid, producer.valid), record_same(ts, consumer.header, producer.header))
+
+
+def header_arbiter_path(c, ts, arb, producers, sink, label):
+    """Call-side obligations for a HeaderQueueArbiter `arb` whose merged queue feeds the HeaderQueue `sink`: stated over the
+    producers' and the sink's signals only (not over the arbiter's selection register), for all arbiter states.
+    `producers`: [(name, HeaderQueue)] in priority order."""
+    of = ts.of
+    c.lemma(f"{label}_arbiter_has_exactly_the_intended_producers", z3.BoolVal(len(arb._sinks) == len(producers)))
+    for (name, q), a in zip(producers, arb._sinks):
+        c.lemma(f"{label}_{name}_is_an_arbiter_input", z3.And(header_queue_consumer_sees(ts, a, q), same(ts, q.ready, a.ready)),
+                clause=f"{name}'s header queue (valid, every header field; ready back) is one of the arbiter's inputs")
+        c.lemma(f"{label}_header_taken_from_{name}_is_the_header_handed_on",
+                z3.Implies(of(q.ready) == 1, z3.And(of(sink.ready) == 1, same(ts, sink.valid, q.valid), record_same(ts, sink.header, q.header))),
+                clause=f"exactly one packet per request: {name} is told 'taken' (ready) only in a cycle in which the consumer takes, and "
+                       f"what the consumer is offered in that cycle is {name}'s header, every field")
+        others = [o for n, o in producers if n != name]
+        c.lemma(f"{label}_{name}_alone_is_served",
+                z3.Implies(z3.And(of(q.valid) == 1, of(sink.valid) == 1, *[of(o.valid) == 0 for o in others]),
+                           z3.And(record_same(ts, sink.header, q.header), same(ts, q.ready, sink.ready))),
+                clause=f"a header offered while only {name} has one is {name}'s, and the consumer's ready reaches {name}")
+    c.lemma(f"{label}_no_header_without_a_producer", z3.Implies(of(sink.valid) == 1, z3.Or(*[of(q.valid) == 1 for _, q in producers])),
+            clause="no packet without a request")
+    c.lemma(f"{label}_consumer_is_fed_by_the_arbiter", z3.And(header_queue_consumer_sees(ts, sink, arb.source), same(ts, arb.source.ready, sink.ready)))
+
+
+def open_link_layer(c, freq=125e6):
+    """The real USB3LinkLayer.  The physical layer object it is handed is a real USB3PhysicalLayer that is NOT elaborated (it
+    is not a submodule of the link layer): it only supplies the interface signals, and every public signal of both layers'
+    interfaces is a port (free input unless the link layer drives it)."""
+    from luna.gateware.interface.pipe import PIPEInterface
+    from luna.gateware.usb.usb3.physical.layer import USB3PhysicalLayer
+    from luna.gateware.usb.usb3.link.layer import USB3LinkLayer
+    phy = USB3PhysicalLayer(phy=PIPEInterface(width=4), sync_frequency=1e6)
+    d = USB3LinkLayer(physical_layer=phy, ss_clock_frequency=freq)
+    ports = signals_of(phy, "phy_")
+    ports.update(signals_of(d, "ll_"))
+    ts = c.unit(d, ports)
+    c.cosim_cycles = 4
+    return d, phy, ts
+
+
+RAW_WORD = ("valid", "payload", "ctrl")               # what the physical layer transmits / the receivers look at
+RAW_TAP = ("valid", "payload", "ctrl", "first", "last")
+
+
+def stream_same(ts, a, b, fields=RAW_TAP):
+    return z3.And(*[same(ts, getattr(a, f), getattr(b, f)) for f in fields])
+
+
+def raw_stream_to_phy(c, ts, arb, index, entry, producer, name, phy, label):
+    """Call-side obligations for one input of the link layer's transmit SuperSpeedStreamArbiter: `entry` is the stream handed to
+    arbiter.add_stream() at priority position `index`, `producer` the unit output that drives it (may be the same object)."""
+    of = ts.of
+    ok = len(arb._sinks) > index
+    c.lemma(f"{label}_{name}_is_transmit_arbiter_input_{index}",
+            z3.And(stream_same(ts, arb._sinks[index], entry), same(ts, entry.ready, arb._sinks[index].ready),
+                   stream_same(ts, entry, producer), same(ts, producer.ready, entry.ready)) if ok else z3.BoolVal(False),
+            clause=f"{name}'s output stream (valid, data, ctrl, first, last; ready back) is input {index} of the transmit arbiter")
+    c.lemma(f"{label}_word_taken_from_{name}_is_the_word_given_to_the_phy",
+            z3.Implies(of(producer.ready) == 1, z3.And(of(phy.sink.ready) == 1, stream_same(ts, phy.sink, producer, RAW_WORD))),
+            clause=f"{name} is told 'taken' (ready) only in a cycle in which the physical layer takes a word, and that word (valid, data, "
+                   f"ctrl) is {name}'s")
+    others = [o for k, o in enumerate(arb._sinks) if k != index]
+    c.lemma(f"{label}_{name}_alone_is_served",
+            z3.Implies(z3.And(of(producer.valid) == 1, of(phy.can_send_skp) == 0, of(phy.sink.valid) == 1, *[of(o.valid) == 0 for o in others]),
+                       z3.And(stream_same(ts, phy.sink, producer, RAW_WORD), same(ts, producer.ready, phy.sink.ready))),
+            clause=f"a word given to the physical layer in place of no idle filler while only {name} has one is {name}'s, and the "
+                   f"physical layer's ready reaches {name}")
+
+
+def instance_is_contracted_unit(c, ts, path, inst, ref, inputs, outputs, label, clause):
+    """Call obligation for a parameterised sub-unit: the instance `inst` that the parent's elaborate() created (module path `path`
+    in the parent netlist `ts`) is the unit that the unit-level contract verifies - `ref`, the same class elaborated separately
+    with the contracted parameters.  Stated as valid formulas over the parent's state and inputs: both have the same registers
+    (names, widths, reset values), and with ref's registers / inputs replaced by the instance's registers / input signals every
+    next-state function and every output of ref equals the instance's.  A different clock parameter, FSM option or register
+    width makes the register sets or the functions differ."""
+    from hwv.extract import TS, BindingError
+    rports = {f"i_{n}": getattr(ref, n) for n in inputs}
+    rports.update({f"o_{n}": getattr(ref, n) for n in outputs})
+    tr = TS(ref, rports, prefix=label + ".")
+    c.functions.append(f"{type(ref).__module__}.{type(ref).__qualname__}.elaborate (reference configuration for the instance at {path})")
+    sub = []
+    for n in inputs:
+        if f"i_{n}" in tr.inputs:
+            try:
+                sub.append((tr.inputs[f"i_{n}"], ts.of(getattr(inst, n))))
+            except BindingError:          # nothing in the parent reads or drives it (then the unit does not read it either): left free
+                pass
+    for n, v in tr.inputs.items():        # clock-domain reset inputs: the parent's input of the same name
+        if not n.startswith("i_") and n in ts.inputs:
+            sub.append((v, ts.inputs[n]))
+
+    def regs(t, prefix):
+        out = {}
+        for k, v in t.state.items():
+            name = t._strip(str(v))
+            if name.startswith(prefix + "."):
+                out.setdefault(name[len(prefix) + 1:], []).append(k)
+        return out
+    mine, theirs = regs(ts, (ts.prefix or "") + path), regs(tr, label)
+    shape = lambda t, r: {n: [(t.state[k].sort().kind(), t.state[k].size() if z3.is_bv(t.state[k]) else 0, str(t.init[k])) for k in ks]
+                          for n, ks in r.items()}
+    ok = bool(mine) and shape(ts, mine) == shape(tr, theirs)
+    c.lemma(f"{label}_instance_has_the_registers_of_the_contracted_configuration", z3.BoolVal(ok),
+            clause=clause + " (same registers, widths and reset values)")
+    if not ok:
+        return tr
+    pairs = [(km, kt) for n in sorted(mine) for km, kt in zip(mine[n], theirs[n])]
+    sub += [(tr.state[kt], ts.state[km]) for km, kt in pairs]
+    c.lemma(f"{label}_next_state_functions_are_the_contracted_ones",
+            z3.And(*[ts.next[km] == z3.substitute(tr.next[kt], *sub) for km, kt in pairs]), clause=clause)
+    c.lemma(f"{label}_output_functions_are_the_contracted_ones",
+            z3.And(*[ts.of(getattr(inst, n)) == z3.substitute(tr.outputs[f"o_{n}"], *sub) for n in outputs
+                     if f"o_{n}" in tr.outputs]),          # (a port the unit never drives has no value to compare)
+            clause=clause)
+    return tr
+
+
+def protocol_layer_wiring(c):
+    """USB3ProtocolLayer.elaborate(): the (shared) endpoint interface <-> link layer data path / transaction packet receiver."""
+    from luna.gateware.usb.usb3.protocol.transaction import TransactionPacketReceiver
+    from luna.gateware.usb.usb3.protocol.data import DataHeaderReceiver
+    from luna.gateware.usb.usb3.protocol.timestamp import TimestampPacketReceiver
+    from luna.gateware.usb.usb3.protocol.link_management import LinkManagementPacketHandler
+    d, link, ts = open_protocol_layer(c)
+    of, ep = ts.of, d.endpoint_interface
+    S = lambda a, b: same(ts, a, b)
+    # ---- IN data path: endpoint interface -> link layer's data packet transmitter
+    c.lemma("link_data_sink_is_endpoint_tx_stream",
+            z3.And(*[S(getattr(link.data_sink, f), getattr(ep.tx, f)) for f in TX_STREAM], S(ep.tx.ready, link.data_sink.ready)),
+            clause="answers an IN request with a data packet / delivers the stream exactly once in order: the link layer's data_sink is the "
+                   "endpoint interface's tx stream (valid, payload, first, last; ready back)")
+    c.lemma("link_data_header_parameters_are_endpoint_tx_parameters",
+            z3.And(S(link.data_sink_send_zlp, ep.tx_zlp), S(link.data_sink_length, ep.tx_length),
+                   S(link.data_sink_endpoint_number, ep.tx_endpoint_number), S(link.data_sink_sequence_number, ep.tx_sequence_number),
+                   S(link.data_sink_direction, ep.tx_direction)),
+            clause="numbers packets with consecutive sequence numbers / ZLP transfer ends: send_zlp, length, endpoint number, sequence number "
+                   "(all 5 bits) and direction given to the link layer are the endpoint interface's")
+    # ---- host handshakes: link header queue -> demultiplexer -> TransactionPacketReceiver -> endpoint interface
+    rxr = ts.instance(TransactionPacketReceiver)
+    c.lemma("endpoint_handshakes_in_is_tp_receiver_interface", record_same(ts, ep.handshakes_in, rxr.interface),
+            clause="for any host behaviour: every field of handshakes_in is the transaction packet receiver's report")
+    consumers = [ts.instance(LinkManagementPacketHandler), ts.instance(TimestampPacketReceiver), ts.instance(DataHeaderReceiver), rxr]
+    for u in consumers:
+        c.lemma(f"{type(u).__name__}_sees_every_received_header", header_queue_consumer_sees(ts, u.header_sink, link.header_source),
+                clause="every header the link layer offers (valid, all header fields) is shown to each protocol-layer header consumer")
+    c.lemma("received_header_is_consumed_iff_a_consumer_takes_it",
+            (of(link.header_source.ready) == 1) == z3.Or(*[of(u.header_sink.ready) == 1 for u in consumers]),
+            clause="a received header leaves the link layer's queue exactly when one of the consumers accepts it")
+    # ---- OUT data path (broadcast to the endpoints)
+    c.lemma("endpoint_rx_is_link_data_source",
+            z3.And(*[S(getattr(ep.rx, f), getattr(link.data_source, f)) for f in TX_STREAM],
+                   record_same(ts, ep.rx_header, link.data_header_from_host),
+                   S(ep.rx_complete, link.data_source_complete), S(ep.rx_invalid, link.data_source_invalid)),
+            clause="(OUT direction) rx stream, rx_header (every field), rx_complete / rx_invalid are the link layer's")
+    lmp = consumers[0]
+    c.lemma("lmp_handler_sees_link_state", z3.And(S(lmp.usb_reset, link.in_reset), S(lmp.link_ready, link.ready)))
+    c.cosim_cycles = 16
+
+
+def link_layer_data_tx_wiring(c):
+    """USB3LinkLayer.elaborate(): data_sink + header parameters -> DataPacketTransmitter -> (header) HeaderQueueArbiter ->
+    PacketTransmitter.queue and (payload) RawPacketTransmitter.data_sink -> transmit arbiter -> physical layer."""
+    from .c37_header_receive import LinkLayerUnits
+    from .c39_header_transmit import lemmas_headers_reach_the_transmitter, lemmas_packets_reach_the_phy
+    U = LinkLayerUnits(c)
+    S, d, tx, ts = U.S, U.d, U.data_tx, U.ts
+    c.lemma("data_transmitter_stream_is_link_data_sink",
+            z3.And(stream_same(ts, tx.data_sink, d.data_sink, TX_STREAM), S(d.data_sink.ready, tx.data_sink.ready)),
+            clause="delivers the stream exactly once in order: DataPacketTransmitter.data_sink is the layer's data_sink (valid, payload, first, last; ready back)")
+    c.lemma("data_transmitter_header_parameters_are_link_parameters",
+            z3.And(S(tx.send_zlp, d.data_sink_send_zlp), S(tx.sequence_number, d.data_sink_sequence_number),
+                   S(tx.endpoint_number, d.data_sink_endpoint_number), S(tx.data_length, d.data_sink_length),
+                   S(tx.direction, d.data_sink_direction), S(tx.address, d.current_address)),
+            clause="numbers packets with consecutive sequence numbers / ZLP transfer ends: send_zlp, sequence number, endpoint number, length, "
+                   "direction and device address of the data header are the layer's inputs")
+    lemmas_headers_reach_the_transmitter(c, U)
+    lemmas_packets_reach_the_phy(c, U)
+
+
 def contracts(tier):
     yield ("SuperSpeedStreamInEndpoint", "mps16_ep1", make(16, 1))
+    yield ("USB3LinkLayer", "wiring_data_tx", link_layer_data_tx_wiring)
+    yield ("USB3ProtocolLayer", "wiring_endpoint_interface", protocol_layer_wiring)
+    yield ("SuperSpeedEndpointMultiplexer", "wiring_3_endpoints", make_mux_wiring(3))
     if tier == "thorough":
         yield ("SuperSpeedStreamInEndpoint", "mps1024_ep1", make(1024, 1))
         yield ("SuperSpeedStreamInEndpoint", "mps8_ep3", make(8, 3))
